@@ -97,6 +97,8 @@ struct DeliveryRec {
     end: Option<u64>,
     bytes: [u8; 128],
     dispatched: bool,
+    /// the instance's action ran for this delivery (it attempted its wake-up write)
+    woke: bool,
 }
 
 struct YieldRec {
@@ -127,6 +129,7 @@ struct World {
     cb_last: bool,
     armed: bool,
     probe_fd: i32,
+    wake_stack: Vec<Vec<(u64, u64)>>,
 }
 
 static mut WORLD: *mut World = std::ptr::null_mut();
@@ -250,7 +253,7 @@ fn record_yield<O: Out>(o: &O) {
                 }
             }
         }
-    } else if let Err(e) = o.faithful(&DeliveryRec { sig, tag: 0, begin: 0, end: None, bytes: [0; 128], dispatched: true }) {
+    } else if let Err(e) = o.faithful(&DeliveryRec { sig, tag: 0, begin: 0, end: None, bytes: [0; 128], dispatched: true, woke: false }) {
         if x.exf == 2 {
             sim::count(E_ITER_RECORDS, 1);
             sim::report("C10", "record-not-faithful", &format!("yielded origin of {}: {}", sig_name(sig), e), false);
@@ -274,7 +277,8 @@ fn do_delivery(sig: i32, nested: bool) {
         x.seq += 1;
         idx = x.deliveries.len();
         info = make_info(sig, idx as u64 + 1);
-        x.deliveries.push(DeliveryRec { sig, tag: idx as u64 + 1, begin: x.seq, end: None, bytes: info.0, dispatched: false });
+        x.deliveries.push(DeliveryRec { sig, tag: idx as u64 + 1, begin: x.seq, end: None, bytes: info.0, dispatched: false, woke: false });
+        x.wake_stack[sim::tid()].push((sim::my_wake_calls(), 0));
         x.in_flight += 1;
         sim::log(UE_DELIVERY_BEGIN, idx as u64, sig as u64);
         if x.consumer_in_call {
@@ -292,6 +296,15 @@ fn do_delivery(sig: i32, nested: bool) {
         x.seq += 1;
         x.deliveries[idx].end = Some(x.seq);
         x.deliveries[idx].dispatched = matches!(disp, sim::Disposition::Handler(_));
+        // wake-up writes attempted by this very delivery (not by deliveries nested inside it)
+        let now = sim::my_wake_calls();
+        let me = sim::tid();
+        let (w0, nested) = x.wake_stack[me].pop().unwrap_or((now, 0));
+        let total = now - w0;
+        x.deliveries[idx].woke = total > nested && x.unwatched.iter().all(|u| *u != sig);
+        if let Some(top) = x.wake_stack[me].last_mut() {
+            top.1 += total;
+        }
         x.in_flight -= 1;
         sim::log(UE_DELIVERY_END, idx as u64, 0);
     }
@@ -692,7 +705,9 @@ fn unreported(x: &World) -> Vec<String> {
         if d.end.is_none() || !d.dispatched {
             continue;
         }
-        if !watched_at(x, d.sig, d.begin, true) {
+        // an obligation: the signal was watched (add_signal had returned) when the delivery began,
+        // or the instance's own action demonstrably ran for it (it attempted its wake-up write)
+        if !watched_at(x, d.sig, d.begin, true) && !d.woke {
             continue;
         }
         if !x.yields.iter().any(|y| y.sig == d.sig && y.seq > d.begin) {
@@ -836,6 +851,7 @@ pub fn run(spec: &RunSpec) -> ! {
         cb_last: false,
         armed: false,
         probe_fd: -1,
+        wake_stack: (0..sim::MAX_THREADS).map(|_| Vec::with_capacity(8)).collect(),
     });
     unsafe { WORLD = Box::into_raw(world) };
     let sh = sighook_shim::shm::get();
